@@ -13,6 +13,12 @@ Engine E2 (exhaustive product), level "exploration", exhaustive over the finite 
   misc  explicit lists                              PARSE_JSON / TRY_PARSE_JSON texts (valid, invalid, NULL), NULL keys,
                                                     SPLIT strings x separators (value, element, size, FLATTEN), FLATTEN
                                                     of literals
+  fval  FVAL_DOCS x 4 flattened inputs x 5 namings   operations on the VALUE column of LATERAL FLATTEN (bare / f.value, with and
+        x (value ops, text functions, contexts)     without flatten alias, with and without table alias; arrays of padded and
+                                                    escaped strings, numbers, booleans, nulls, containers; SPLIT results):
+                                                    every value op, UPPER/LOWER/TRIM/LTRIM/RTRIM with and without characters,
+                                                    cast and uncast operator contexts in the select list, and every boolean
+                                                    context as the WHERE clause; reference = the Python list
   nest  NEST_DOCS x inner path x inner syntax       nested navigation: OUTER_OP( WRAPPER( INNER_PATH(v) ) OUTER_PATH ), a path
         x NEST_WRAPPERS x outer path x outer        + conversion whose base is itself built from another path (+ conversion)
         syntax x outer op                           of the document: PARSE_JSON / TRY_PARSE_JSON of a string-valued path
@@ -187,10 +193,29 @@ CTOR_ATOMS = {"quick": [None, True, 0, -1.5, "Str", [], {}], "thorough": ATOMS}
 CTOR_CHAIN_ATOMS = {"quick": [None, "Str"], "thorough": ATOMS}
 
 
+# OBJECT_CONSTRUCT argument lists with runs of adjacent NULL-valued pairs (N) among non-NULL ones (v), at the start, in the
+# middle and at the end; "NvN" is the non-adjacent control
+NULLRUN_PATTERNS = {
+    "quick": ["NN", "NNv", "vNN", "vNNv", "NNNv", "vNNNv"],
+    "thorough": ["NN", "NNN", "NNv", "vNN", "vNNv", "NNNv", "vNNN", "vNNNv", "NvN", "NNvNN", "vNNvNNNv"],
+}
+
+
+def nullrun_docs(tier):
+    """the patterns as objects k1..kn (top level), and -- nested -- as the value of a pair and as an array element"""
+    out = []
+    for pat in NULLRUN_PATTERNS[tier]:
+        d = {f"k{n + 1}": (None if c == "N" else 1) for n, c in enumerate(pat)}
+        out.append(d)
+        if tier == "thorough" or pat in ("vNNv", "NNNv"):
+            out += [{"k0": d}, [d]]
+    return out
+
+
 def ctor_docs_for(tier):
-    """constructor documents: the containers of depth <= 1 over the atoms and the 2-frame chains"""
+    """constructor documents: the containers of depth <= 1 over the atoms, the 2-frame chains, the NULL-run objects"""
     frames = FRAMES if tier == "thorough" else FRAMES_QUICK
-    return _dedupe([[], {}] + _containers(CTOR_ATOMS[tier]) + _chains(frames, 2, CTOR_CHAIN_ATOMS[tier]))
+    return _dedupe([[], {}] + _containers(CTOR_ATOMS[tier]) + _chains(frames, 2, CTOR_CHAIN_ATOMS[tier]) + nullrun_docs(tier))
 
 
 def paths_for(tier):
@@ -1141,6 +1166,12 @@ def ctor_feats(doc, style):
         rank = ["none", "uniform", "dec+int", "objmix", "hetero"]
         if rank.index(e) > rank.index(elems):
             elems = e
+    nullrun = 0
+    for o, _dp in _objects(doc):
+        run = 0
+        for v in o.values():
+            run = run + 1 if v is None else 0
+            nullrun = max(nullrun, run)
     nullelem = any(x is None for a in _arrays(doc) for x in a)
     nulltop = any(v is None for o, dp in _objects(doc) for v in o.values() if dp == 0)
     nullnested = any(v is None for o, dp in _objects(doc) for v in o.values() if dp > 0)
@@ -1150,16 +1181,19 @@ def ctor_feats(doc, style):
         nopair = any(not o for o, _dp in _objects(doc))
     return {"top": top, "elems": elems, "nullelem": "yes" if nullelem else "no",
             "nullpair": "top+nested" if nulltop and nullnested else "top" if nulltop else "nested" if nullnested else "no",
-            "nopair": "yes" if nopair else "no"}  # fmt: skip
+            "nopair": "yes" if nopair else "no", "nullrun": nullrun}  # fmt: skip
 
 
 def ctor_cause(cf, style):
     """the one constructor-shape feature used in class keys, by priority: an array whose elements have different SQL
     types ('hetero'; apart, lower down: integers with decimals 'dec+int', an object next to non-string scalars
-    'objmix'); an OBJECT_CONSTRUCT left without any pair; NULL-valued pairs in an OBJECT_CONSTRUCT that is / is not an
+    'objmix'); an OBJECT_CONSTRUCT call with a run of 2 / of 3 or more adjacent NULL-valued pairs ('nullrun2',
+    'nullrun3+'); an OBJECT_CONSTRUCT left without any pair; NULL-valued pairs in an OBJECT_CONSTRUCT that is / is not an
     argument of another one; else plain"""
     if cf["elems"] == "hetero":
         return "hetero"
+    if cf["nullrun"] >= 2:
+        return "nullrun2" if cf["nullrun"] == 2 else "nullrun3+"
     if cf["nopair"] == "yes" and style == "oc":
         return "nopair"
     if cf["nullpair"] in ("nested", "top+nested"):
@@ -1176,7 +1210,7 @@ def ctor_cells(doc, style):
     src = ctor_sql(doc, style)
     exp = ctor_expected(doc, style)
     cause = ctor_cause(cf, style)
-    clause = "C11.object_construct" if cause in ("nopair", "nullpair.nested", "nullpair.top") else "C11.construct"
+    clause = "C11.object_construct" if cause in ("nopair", "nullpair.nested", "nullpair.top", "nullrun2", "nullrun3+") else "C11.construct"
     feats = {"source": "ctor", "style": style, "op": "construct", "cause": cause}
     cells = [{"expr": src, "mode": "json", "exp": exp, "clause": clause, "deps": [], "feats": feats, "key": ("ctor", style, canon(doc), "root")}]
     cells.append({"expr": f"array_size({src})", "mode": "num", "exp": J.array_size(exp), "clause": "C11.array_size", "deps": [0],
@@ -1797,8 +1831,9 @@ def work_fval(item, acc, tier):
     _set_kk(w, ("fval", inp[1], tier), [i for i in allids])  # t = row id: a data-dependent error is narrowed down to rows
     setup_of = (lambda i: fsplit_load_sql([i])) if inp[0] == "split" else (lambda i: fval_load_sql([i], tier))
 
-    def evaluate(exprs, rowset, judge_row, clause_feats, where=""):
-        """exprs: [(key, sql text, mode)]; judge_row(key, i) -> [expected per output row]. All over the rows `rowset`"""
+    def evaluate(exprs, rowset, judge_row, clause_feats, where="", ordered=True):
+        """exprs: [(key, sql text, mode)]; judge_row(key, i) -> [expected per output row]. All over the rows `rowset`.
+        ordered=False: the output rows of one input row are compared as a multiset (a WHERE clause: no order promised)"""
         ids = sorted(rowset)
         _set_excluded(w, set(allids) - set(ids))
         right = {}
@@ -1826,6 +1861,13 @@ def work_fval(item, acc, tier):
             for i in ids:
                 exps = judge_row(key, i)  # [(expected, element)]
                 rr = per_id[i]
+                if not ordered and rr[0] == "ok" and len(rr[1]) == len(exps):
+                    rest = list(rr[1])
+                    arranged = []
+                    for exp, _el in exps:  # pair every expected value with an equal fetched one, if there is one
+                        j = next((n for n, g in enumerate(rest) if J.matches(mode, exp, g)), 0)
+                        arranged.append(rest.pop(j))
+                    rr = ("ok", tuple(arranged))
                 sig.append((i, rr[0], rr[1]))
                 whole = rr[0] == "ok" and len(rr[1]) == len(exps)
                 row_ok = True
@@ -1866,7 +1908,7 @@ def work_fval(item, acc, tier):
         return clause_of(o, None if el is J.MISSING else el) if el is not J.MISSING else "C11.flatten", {"fco": "value", "op": o, "kind": k, "source": "fval"}
 
     def rows_for(o, among):
-        return {i for i in among if all(expected(o, el) is not J.UNDEMANDED for el in lists[i])}
+        return {i for i in among if lists[i] and all(expected(o, el) is not J.UNDEMANDED for el in lists[i])}
 
     def judge(o, i):
         return [(expected(o, el), el) for el in lists[i]]
@@ -1896,7 +1938,7 @@ def work_fval(item, acc, tier):
         def feats_where(_key, el, o=o):
             return "C11.context", {"fco": "value", "op": o + ".where", "kind": "arr", "source": "fval"}
 
-        evaluate([(o + ".where", val, "json")], rs, judge_where, feats_where, where=" where " + OPS[o]["tpl"].format(x=val))
+        evaluate([(o + ".where", val, "json")], rs, judge_where, feats_where, where=" where " + OPS[o]["tpl"].format(x=val), ordered=False)
     if vi == 0:
         head, _pre, tail, _v = _fval_stmt(inp, variant, single=True)
         acc.sample({"mode": "fval", "input": inp[2], "variant": variant[0], "rows": len(lists), "one_list": lists[min(3, len(lists) - 1)],
@@ -1949,7 +1991,8 @@ def run(ctx: core.Ctx):
         "columns over the same paths; lit = every relevant path (existing + one negative step per node) of every literal "
         "document; ctor = both constructor styles of every constructor document; misc = explicit lists; nest = every "
         "nested document row x inner path x inner syntax x wrapper x outer path x outer syntax x outer op (and the inline "
-        "wrappers on every nested literal document). One evaluation "
+        "wrappers on every nested literal document); fval = every array row x flattened input x naming variant x every "
+        "op / text function / context applied to the FLATTEN VALUE column, and every boolean context as WHERE. One evaluation "
         "= one SQL expression evaluated by fakesnow on one document. Non-trivial = distinct (source, syntax, path, op, "
         "navigated value) whose expected value is not NULL / empty."
     )
@@ -1959,7 +2002,8 @@ def run(ctx: core.Ctx):
         "JSON null and SQL NULL are both None; cells listed under 'not demanded' in the module docstring are not compared",
         "an expression's value does not depend on the other expressions of the same SELECT list nor on the other rows "
         "of the table (raising statements are split down to single expressions / single target values)",
-        "rows of a single-table LATERAL FLATTEN come out grouped per input row in element order",
+        "rows of a single-table LATERAL FLATTEN come out grouped per input row in element order (with a WHERE clause "
+        "only the multiset of rows per input row is compared)",
     ]
     items = items_for(tier)
     ctx.pmap(work, items, chunk=1)
@@ -1976,6 +2020,11 @@ def run(ctx: core.Ctx):
             "nested_wrappers": [x[1] for x in NEST_WRAPPERS],
             "nested_inner_paths": [list(x) for x in NEST_P1[tier]],
             "nested_ops": NEST_OPS[tier],
+            "flatten_value_rows": len(fval_docs_for(tier)),
+            "flatten_value_inputs": [x[2] for x in FVAL_INPUTS],
+            "flatten_value_variants": [x[0] for x in FVAL_VARIANTS],
+            "flatten_value_elements": [canon(x) for x in (FVAL_ELEMS if tier == "thorough" else FVAL_ELEMS_QUICK)],
+            "null_run_patterns": NULLRUN_PATTERNS[tier],
             "atoms": [canon(a) for a in (ATOMS if tier == "thorough" else ATOMS_QUICK)],
             "steps": [str(x) for x in STEPS[tier]],
             "max_path_length": MAXLEN[tier] if tier == "thorough" else "2 (+ 11 listed paths of length 3)",
